@@ -47,6 +47,8 @@ def programs(tier, seed):
         rng.shuffle(d2)
         out += [(theme, p) for p in d2[:40 if tier == "quick" else 600]]
     out += [("real", p) for p in gen.einsum_progs()] + [("real", p) for p in gen.independent_progs()]
+    from checks.c08 import gen_sameop
+    out += [("sameop:" + op, p) for op, car, p in gen_sameop(rng, 30 if tier == "quick" else 300)]
     return out
 
 
@@ -63,7 +65,7 @@ def main():
         os.environ["FUNSOR_TYPECHECK"] = tc
         insts = []
         for theme, p in progs:
-            for s in (scheds if chk.tier != "quick" else rng.sample(scheds, 3)):
+            for s in (scheds if chk.tier != "quick" else (rng.sample(scheds, 3) if not theme.startswith("sameop") else ["normalize", "lazy>normalize", "lazy"])):
                 n += 1
                 insts.append((s, theme, p, n % 13 == 0))
         chk.map("checks.c03", "worker", insts, chunksize=8, family="TCO=%s,TYPECHECK=%s" % (tco, tc))
